@@ -1111,6 +1111,30 @@ func cursorMoveCore(p *Prog, r *Report, fb *fnBounds, f *ssa.Function, st ssa.In
 // path, by a predicate applied to the n-th byte of the unread text (buffer[cursor:], cursor and buffer
 // unchanged since): the n bytes passed over have each been looked at and accepted.
 func predicateScanMatch(fb *fnBounds, f *ssa.Function, st ssa.Instruction, d lin, c invField) string {
+	// advance by len(rest) - len(strings.TrimLeft(rest, cutset)): the leading bytes of the unread text that are
+	// in a constant cutset
+	for _, b := range f.Blocks {
+		for _, in := range b.Instrs {
+			tc, ok := in.(*ssa.Call)
+			if !ok || tc.Call.StaticCallee() == nil || tc.Call.StaticCallee().String() != "strings.TrimLeft" || len(tc.Call.Args) != 2 {
+				continue
+			}
+			if _, isK := constString(tc.Call.Args[1]); !isK {
+				continue
+			}
+			if !(tc.Block() == st.Block() && blockOrder(tc) < blockOrder(st) || tc.Block() != st.Block() && tc.Block().Dominates(st.Block())) {
+				continue
+			}
+			rest := tc.Call.Args[0]
+			if !isRestOfBuffer(fb, f, rest, st, c) {
+				continue
+			}
+			want := fb.lenOf(rest, tc, 0).sub(linVar("len:" + ssaName(tc)))
+			if diff := d.sub(want); diff.isConst() && diff.k.Sign() == 0 {
+				return "advances by the number of leading bytes of the unread text that strings.TrimLeft removed (a constant cutset)"
+			}
+		}
+	}
 	if d.k.Sign() != 0 || len(d.c) != 1 {
 		return ""
 	}
@@ -1144,61 +1168,7 @@ func predicateScanMatch(fb *fnBounds, f *ssa.Function, st ssa.Instruction, d lin
 	if phi == nil {
 		return ""
 	}
-	clsF := "fld:" + c.T.String() + "." + c.F
-	clsG := "fld:" + c.T.String() + "." + c.G
-	// restOf: v is buffer[cursor:] of the receiver, computed when cursor and buffer had the versions they have at st
-	restOf := func(v ssa.Value) bool {
-		isRest := func(sl *ssa.Slice, recv ssa.Value) bool {
-			if sl.High != nil || sl.Max != nil || sl.Low == nil {
-				return false
-			}
-			ld, ok := sl.X.(*ssa.UnOp)
-			if !ok || ld.Op != token.MUL {
-				return false
-			}
-			fa, ok := ld.X.(*ssa.FieldAddr)
-			if !ok || fa.X != recv || fieldOf(fa).Field != c.G {
-				return false
-			}
-			lo, ok := sl.Low.(*ssa.UnOp)
-			if !ok || lo.Op != token.MUL {
-				return false
-			}
-			fl, ok := lo.X.(*ssa.FieldAddr)
-			return ok && fl.X == recv && fieldOf(fl).Field == c.F
-		}
-		var at ssa.Instruction
-		switch t := v.(type) {
-		case *ssa.Slice:
-			if len(f.Params) == 0 || !isRest(t, f.Params[0]) {
-				return false
-			}
-			at = t
-		case *ssa.Call:
-			callee := t.Call.StaticCallee()
-			if callee == nil || !fb.bp.p.InModule(callee) || len(callee.Blocks) != 1 || len(callee.Params) != 1 || len(f.Params) == 0 || t.Call.Args[0] != ssa.Value(f.Params[0]) {
-				return false
-			}
-			if ti := fb.bp.transparent(callee); ti == nil || len(ti.updates) > 0 {
-				return false
-			}
-			ret, ok := callee.Blocks[0].Instrs[len(callee.Blocks[0].Instrs)-1].(*ssa.Return)
-			if !ok || len(ret.Results) != 1 {
-				return false
-			}
-			sl, ok := ret.Results[0].(*ssa.Slice)
-			if !ok || !isRest(sl, callee.Params[0]) {
-				return false
-			}
-			at = t
-		default:
-			return false
-		}
-		if os.Getenv("SPDXVERIF_TRACE_G4") != "" {
-			fmt.Fprintln(os.Stderr, "G4 restOf versions", fb.versionAt(clsF, at), fb.versionAt(clsF, st), fb.versionAt(clsG, at), fb.versionAt(clsG, st))
-		}
-		return fb.versionAt(clsF, at) == fb.versionAt(clsF, st) && fb.versionAt(clsG, at) == fb.versionAt(clsG, st)
-	}
+	restOf := func(v ssa.Value) bool { return isRestOfBuffer(fb, f, v, st, c) }
 	// acceptedAt: cond is pred(rest[phi]) for some predicate over one byte
 	acceptedAt := func(cond ssa.Value) bool {
 		var arg ssa.Value
@@ -1451,4 +1421,58 @@ func calledOnceOutsideLoops(p *Prog, helper, from *ssa.Function) bool {
 		}
 	}
 	return sites == 1
+}
+
+// isRestOfBuffer: v is buffer[cursor:] of f's receiver (written out, or through a one-block helper that returns
+// it), computed when cursor and buffer had the versions they have at st.
+func isRestOfBuffer(fb *fnBounds, f *ssa.Function, v ssa.Value, st ssa.Instruction, c invField) bool {
+	clsF := "fld:" + c.T.String() + "." + c.F
+	clsG := "fld:" + c.T.String() + "." + c.G
+	isRest := func(sl *ssa.Slice, recv ssa.Value) bool {
+		if sl.High != nil || sl.Max != nil || sl.Low == nil {
+			return false
+		}
+		ld, ok := sl.X.(*ssa.UnOp)
+		if !ok || ld.Op != token.MUL {
+			return false
+		}
+		fa, ok := ld.X.(*ssa.FieldAddr)
+		if !ok || fa.X != recv || fieldOf(fa).Field != c.G {
+			return false
+		}
+		lo, ok := sl.Low.(*ssa.UnOp)
+		if !ok || lo.Op != token.MUL {
+			return false
+		}
+		fl, ok := lo.X.(*ssa.FieldAddr)
+		return ok && fl.X == recv && fieldOf(fl).Field == c.F
+	}
+	var at ssa.Instruction
+	switch t := v.(type) {
+	case *ssa.Slice:
+		if len(f.Params) == 0 || !isRest(t, f.Params[0]) {
+			return false
+		}
+		at = t
+	case *ssa.Call:
+		callee := t.Call.StaticCallee()
+		if callee == nil || !fb.bp.p.InModule(callee) || len(callee.Blocks) != 1 || len(callee.Params) != 1 || len(f.Params) == 0 || t.Call.Args[0] != ssa.Value(f.Params[0]) {
+			return false
+		}
+		if ti := fb.bp.transparent(callee); ti == nil || len(ti.updates) > 0 {
+			return false
+		}
+		ret, ok := callee.Blocks[0].Instrs[len(callee.Blocks[0].Instrs)-1].(*ssa.Return)
+		if !ok || len(ret.Results) != 1 {
+			return false
+		}
+		sl, ok := ret.Results[0].(*ssa.Slice)
+		if !ok || !isRest(sl, callee.Params[0]) {
+			return false
+		}
+		at = t
+	default:
+		return false
+	}
+	return fb.versionAt(clsF, at) == fb.versionAt(clsF, st) && fb.versionAt(clsG, at) == fb.versionAt(clsG, st)
 }
